@@ -81,8 +81,8 @@ M("c01-eval-swallows-limits-again", ["C01"], CX,
   "                return vm.run(bytecode_module)\n            except Exception as e:",
   [("C01", "C01-R6", "eval_fn")])
 M("c01-eval-fresh-clock", ["C01"], CX,
-  "                if ctx._current_vm is not None:\n                    # Share the running evaluation's deadline\n                    vm.start_time = ctx._current_vm.start_time\n                return vm.run(bytecode_module)",
-  "                return vm.run(bytecode_module)",
+  "                if ctx._current_vm is not None:\n                    # Share the running evaluation's deadline and host-stack budget\n                    vm.start_time = ctx._current_vm.start_time\n                    vm.host_depth = ctx._current_vm.host_depth\n                return vm.run(bytecode_module)",
+  "                if ctx._current_vm is not None:\n                    vm.host_depth = ctx._current_vm.host_depth\n                return vm.run(bytecode_module)",
   [("C01", "C01-R7", "eval_fn")])
 M("c01-run-restamps", ["C01"], VM,
   "        if self.start_time is None:\n            self.start_time = time.monotonic()", "        self.start_time = time.monotonic()",
@@ -545,8 +545,8 @@ M("c04-signal-not-caught-by-wrapper", ["C04", "C07"], VM,
   "",
   [("C04", "C04-R1", "_PendingThrow"), ("C07", "C07-R3c", "contained")])
 M("c04-signal-pop-not-in-finally", ["C04", "C07"], VM,
-  "                    self._run_opcode(op, arg, frame)\n            finally:\n                self._callback_depths.pop()\n",
-  "                    self._run_opcode(op, arg, frame)\n            except JSError:\n                raise\n            self._callback_depths.pop()\n",
+  "                    self._run_opcode(op, arg, frame)\n            finally:\n                self._callback_depths.pop()\n                self.host_depth[0] -= 1\n",
+  "                    self._run_opcode(op, arg, frame)\n            except JSError:\n                raise\n            self._callback_depths.pop()\n            self.host_depth[0] -= 1\n",
   [("C04", "C04-R1", "_PendingThrow"), ("C07", "C07-R3c", "contained")])
 T("t-run-opcode-inlined-in-execute", ["C01", "C02", "C07"], VM,
   "            self._run_opcode(op, arg, frame)\n\n            # Check if frame was popped (return)",
@@ -615,4 +615,13 @@ T("t-adopt-inline-assignment", ["C01", "C12"], VM,
 TWINS.append(dict(id="t-cached-deadline-kept-coherent", props=["C01", "C12", "C15"], patch="seeded/C01-b/patch.diff", note="seed C01-b plus the missing refresh of the cached deadline wherever start_time is inherited",
                   edits=[(CX, "                    vm.start_time = self._current_vm.start_time\n", "                    vm.start_time = self._current_vm.start_time\n                    vm.deadline = self._current_vm.deadline\n", 1),
                          (CX, "                    vm.start_time = ctx._current_vm.start_time\n", "                    vm.start_time = ctx._current_vm.start_time\n                    vm.deadline = ctx._current_vm.deadline\n", 1),
-                         (CX, "            vm.start_time = self._current_vm.start_time\n        else:\n            vm.start_time = time.monotonic()\n", "            vm.start_time = self._current_vm.start_time\n            vm.deadline = self._current_vm.deadline\n        else:\n            vm._start_clock()\n", 1)]))
+                         (CX, "            vm.start_time = self._current_vm.start_time\n            vm.host_depth = self._current_vm.host_depth\n        else:\n            vm.start_time = time.monotonic()\n", "            vm.start_time = self._current_vm.start_time\n            vm.deadline = self._current_vm.deadline\n            vm.host_depth = self._current_vm.host_depth\n        else:\n            vm._start_clock()\n", 1)]))
+
+# ------------------------------------------------------------------ host-stack budget (fix 094d6a2)
+M("c02-callback-not-counted", ["C02"], VM,
+  "            self._enter_host_level()\n            self._callback_depths.append(call_stack_len)\n", "            self.host_depth[0] += 1\n            self._callback_depths.append(call_stack_len)\n",
+  [("C02", "C02-R3$", "_call_callback:reentrant")])
+M("c02-host-budget-never-released", ["C02"], VM,
+  "        self._enter_host_level()\n        try:\n            return self._execute()\n        finally:\n            self.host_depth[0] -= 1\n",
+  "        self._enter_host_level()\n        return self._execute()\n",
+  [], note="a budget that is charged but not released: a VM runs once, so nothing observable follows; not decided")
